@@ -202,11 +202,19 @@ theorem thomas_solves_system {prec : K} (hprec : 0 < prec) (c b r : Vec K) {n : 
     {s : Vec K} (h : thomas prec c b r n = some s) : TriSystem c b r n s :=
   thomas_solves hprec c b r hn h
 
+/-- loop invariant of `buildInterpolation` (induction on the iterations, `ho`/`uo` carried) : the
+loop fills the upper diagonal, the main diagonal and the right-hand side with `upperDiag`,
+`mainDiag`, `rhsVec` (closed forms in Lemmas.lean) -/
+theorem buildInterpolation_assembles (x y : Vec K) {s : Nat} (hs : 1 ≤ s) :
+    (assemble x y s).mu = upperDiag x s ∧ (assemble x y s).md = mainDiag x s ∧
+      (assemble x y s).d = rhsVec x y s :=
+  assemble_eq x y hs
+
 /-- the system assembled by `buildInterpolation` is, row by row, "zero second derivative at the
 first node / continuous second derivative at each interior node / zero second derivative at the
 last node" -/
 theorem system_is_natural_C2 {x y : Vec K} {n : Nat} (hx : StrictInc x n) (hn : 2 ≤ n) (d : Vec K) :
-    TriSystem (upperDiag x) (mainDiag x (n - 1)) (rhsVec x y (n - 1)) n d ↔ NaturalC2 x y d n :=
+    TriSystem (upperDiag x (n - 1)) (mainDiag x (n - 1)) (rhsVec x y (n - 1)) n d ↔ NaturalC2 x y d n :=
   natural_iff_system hx hn d
 
 /-- `setCollocationPoints` : when it succeeds the table is strictly increasing and the slopes it
